@@ -1,4 +1,5 @@
-/- Driver ops for the Cli model (C18): `cli.exit`, `cli.argv`, `cli.parser`, `cli.parseinput`, `cli.initctx`. -/
+/- Driver ops for the Cli model (C18): `cli.exit`, `cli.main`, `cli.phases`, `cli.classify`, `cli.argv`, `cli.process`,
+   `cli.parser`, `cli.parseinput`, `cli.initctx`, `cli.shortcut`. -/
 import Lean.Data.Json
 import PypyrModel.Json
 import PypyrModel.Cli
@@ -16,6 +17,23 @@ def strsJ (xs : List String) : Json := Json.arr (xs.map Json.str).toArray
 def strsOf (j : Json) : Except String (List String) := do
   (← j.getArr?).toList.mapM Json.getStr?
 
+def intJ (n : Int) : Json := Json.num (JsonNumber.fromInt n)
+
+def optIntOf (j : Json) (k : String) : Except String (Option Int) := do
+  match ← j.getObjVal? k with
+  | .null => pure none
+  | v => pure (some (← Pypyr.jsonInt? v))
+
+/-- `SystemExit` code on the wire: `null`, an int in `[-2^63, 2^63)`, or `{"text": str(obj)}`. -/
+def exitCodeOf (j : Json) : Except String ExitCode := do
+  match j with
+  | .null => pure .absent
+  | .num _ =>
+    let n ← Pypyr.jsonInt? j
+    if n < -(2 ^ 63 : Int) || n ≥ (2 ^ 63 : Int) then throw "out of domain: SystemExit code does not fit a C long"
+    pure (.int n)
+  | _ => pure (.other (← (← j.getObjVal? "text").getStr?))
+
 def raisedOf (j : Json) : Except String Raised := do
   match ← (← j.getObjVal? "kind").getStr? with
   | "nothing" => pure .nothing
@@ -24,7 +42,23 @@ def raisedOf (j : Json) : Except String Raised := do
   | "stopStepGroup" => pure .stopStepGroup
   | "keyboardInterrupt" => pure .keyboardInterrupt
   | "error" => pure (.error (← (← j.getObjVal? "ty").getStr?) (← (← j.getObjVal? "msg").getStr?))
+  | "systemExit" => pure (.systemExit (← exitCodeOf (← j.getObjVal? "code")))
+  | "baseOther" => pure (.baseOther (← (← j.getObjVal? "ty").getStr?) (← (← j.getObjVal? "msg").getStr?))
   | k => throw s!"unknown kind {k}"
+
+def kindOf : Raised → String
+  | .nothing => "nothing" | .stop => "stop" | .stopPipeline => "stopPipeline"
+  | .stopStepGroup => "stopStepGroup" | .keyboardInterrupt => "keyboardInterrupt" | .error _ _ => "error"
+  | .systemExit _ => "systemExit" | .baseOther _ _ => "baseOther"
+
+/-- An outcome of `main` as the harness observes a process / an in-process call. -/
+def outcomeJ (log : Option Int) (raisedInTry : Raised) (o : Outcome) : Json :=
+  let common := [("status", optJ natJ o.status), ("stderr", Json.str o.stderr),
+                 ("interpreter_traceback", Json.bool o.interpreterTraceback),
+                 ("main_traceback", Json.bool (match o with | .returned _ => mainTraceback log raisedInTry | _ => false))]
+  match o with
+  | .returned m => Json.mkObj ([("outcome", Json.str "returned"), ("ret", optJ natJ m.ret), ("stdout", Json.str m.stdout)] ++ common)
+  | .escaped r => Json.mkObj ([("outcome", Json.str "escaped"), ("escaped", Json.str (kindOf r)), ("stdout", Json.str "")] ++ common)
 
 def parserOf (s : String) : Except String Parser :=
   match s with
@@ -78,20 +112,7 @@ def loadsImpl (s : String) : Except Exc Val :=
 def argsJ (a : Args) : Json :=
   Json.mkObj [("name", Json.str a.name), ("ctx", strsJ a.ctx), ("groups", optJ strsJ a.groups),
     ("success", optJ Json.str a.success), ("failure", optJ Json.str a.failure),
-    ("dir", optJ Json.str a.dir), ("log", optJ natJ a.log), ("logpath", optJ Json.str a.logpath)]
-
-/-- `int()` accepts more spellings than the model's digit strings; a `--log` value that is neither
-    all digits nor plainly not a number is outside the modelled domain. -/
-def logValuesOk : List String → Bool
-  | [] => true
-  | "--" :: _ => true
-  | o :: v :: rest =>
-    if o == "--log" || o == "--loglevel" then
-      let cs := v.toList
-      ((!cs.isEmpty && cs.all Char.isDigit) || (!cs.isEmpty && cs.all Char.isAlpha) || startsWithDash v)
-        && logValuesOk (v :: rest)
-    else logValuesOk (v :: rest)
-  | [_] => true
+    ("dir", optJ Json.str a.dir), ("log", optJ intJ a.log), ("logpath", optJ Json.str a.logpath)]
 
 def excResult {α} (f : α → Json) (r : Except Exc α) : Except String Json :=
   match r with
@@ -113,46 +134,60 @@ def optStrsOf (j : Json) (k : String) : Except String (Option (List String)) := 
 def handle (op : String) (j : Json) : Except String Json := do
   match op with
   | "exit" =>
+    -- the whole process for what escaped `load_and_run_pipeline`: `Pipeline.run`, `main`'s ladder, the interpreter
     let r ← raisedOf (← j.getObjVal? "raised")
-    let m := cliMain (pipelineRun r)
-    pure (Json.mkObj [("status", natJ (exitStatus r)), ("stdout", Json.str m.stdout), ("stderr", Json.str m.stderr)])
+    let log ← (match j.getObjVal? "log_level" with | .ok _ => optIntOf j "log_level" | .error _ => pure none)
+    pure (outcomeJ log (pipelineRun r) (tryMain (pipelineRun r)))
   | "main" =>
     -- the ladder of `cli.main` alone (what `pipelinerunner.run` raised), and `Pipeline.run` alone
     let r ← raisedOf (← j.getObjVal? "raised")
-    let m := cliMain r
-    let kindOf : Raised → String := fun
-      | .nothing => "nothing" | .stop => "stop" | .stopPipeline => "stopPipeline"
-      | .stopStepGroup => "stopStepGroup" | .keyboardInterrupt => "keyboardInterrupt" | .error _ _ => "error"
-    pure (Json.mkObj [("ret", optJ natJ m.ret), ("stdout", Json.str m.stdout), ("stderr", Json.str m.stderr),
-                      ("pipeline_run", Json.str (kindOf (pipelineRun r)))])
+    let log ← (match j.getObjVal? "log_level" with | .ok _ => optIntOf j "log_level" | .error _ => pure none)
+    pure ((outcomeJ log r (tryMain r)).setObjVal! "pipeline_run" (Json.str (kindOf (pipelineRun r))))
   | "phases" =>
     -- `cli.main` after argument parsing with a fault possible in every phase:
     -- what `config.init()` / `set_root_logger(…)` raise, what escapes the pipeline run
     let fj ← j.getObjVal? "faults"
     let cfg ← raisedOf (← fj.getObjVal? "config")
-    let log ← raisedOf (← fj.getObjVal? "logger")
+    let lg ← raisedOf (← fj.getObjVal? "logger")
     let run ← raisedOf (← fj.getObjVal? "run")
+    let log ← (match j.getObjVal? "log_level" with | .ok _ => optIntOf j "log_level" | .error _ => pure none)
     let f : Faults := fun
       | .configInit => cfg
-      | .setRootLogger => log
+      | .setRootLogger => lg
       | .runPipeline => run
-    match mainPhases f with
-    | .returned m =>
-      pure (Json.mkObj [("outcome", Json.str "returned"), ("ret", optJ natJ m.ret), ("status", natJ (sysExit m.ret)),
-                        ("stdout", Json.str m.stdout), ("stderr", Json.str m.stderr)])
-    | .escaped _ => pure (Json.mkObj [("outcome", Json.str "escaped")])
+    pure (outcomeJ log (seqRaises f mainShape.inTry) (mainPhases f))
+  | "classify" =>
+    -- `_parse_optional` on one string
+    let s ← (← j.getObjVal? "s").getStr?
+    match classify s with
+    | .outside => throw "out of domain: dash-leading string with a non-ASCII character"
+    | .pos => pure (Json.mkObj [("cls", Json.str "pos")])
+    | .dd => pure (Json.mkObj [("cls", Json.str "dd")])
+    | .unknown => pure (Json.mkObj [("cls", Json.str "unknown")])
+    | .ambiguous => pure (Json.mkObj [("cls", Json.str "ambiguous")])
+    | .opt o e => pure (Json.mkObj [("cls", Json.str "opt"), ("opt", Json.str (match o with
+        | .groups => "groups" | .success => "success_group" | .failure => "failure_group" | .dir => "py_dir"
+        | .log => "log_level" | .logpath => "log_path" | .help => "help" | .version => "version")),
+        ("explicit", optJ Json.str e)])
   | "argv" =>
     let argv ← strsOf (← j.getObjVal? "argv")
-    if !logValuesOk argv then throw "out of domain: --log value"
     match parseArgv argv with
-    | .outside => throw "out of domain: argv outside the modelled grammar"
+    | .outside => throw "out of domain: argv outside the modelled domain"
     | .usage => pure (Json.mkObj [("usage", Json.bool true)])
+    | .exit0 => pure (Json.mkObj [("exit0", Json.bool true)])
     | .ok a => pure (Json.mkObj [("ok", argsJ a), ("call", Json.mkObj [
         ("pipeline_name", Json.str (runCallOf a).pipelineName), ("args_in", strsJ (runCallOf a).argsIn),
         ("parse_args", optJ Json.bool (runCallOf a).parseArgs), ("groups", optJ strsJ (runCallOf a).groups),
         ("success_group", optJ Json.str (runCallOf a).successGroup),
         ("failure_group", optJ Json.str (runCallOf a).failureGroup),
         ("py_dir", optJ Json.str (runCallOf a).pyDir)])])
+  | "process" =>
+    -- the whole command: argv, and what escapes the pipeline run if it gets that far
+    let argv ← strsOf (← j.getObjVal? "argv")
+    let r ← raisedOf (← j.getObjVal? "raised")
+    match cliProcess argv (fun _ => r) with
+    | none => throw "out of domain: argv outside the modelled domain"
+    | some (st, call) => pure (Json.mkObj [("status", optJ natJ st), ("runner_called", Json.bool call.isSome)])
   | "parser" =>
     let p ← parserOf (← (← j.getObjVal? "parser").getStr?)
     let args ← strsOf (← j.getObjVal? "args")
@@ -178,6 +213,32 @@ def handle (op : String) (j : Json) : Except String Json := do
       match excResult Ctx.toJson r with
       | .error e => throw e
       | .ok o => pure (o.setObjVal! "parser_runs" (Json.bool ran))
+  | "shortcut" =>
+    -- `Pipeline.new_pipe_and_args` under a given `config.shortcuts`
+    let scs ← Ctx.ofJson (← j.getObjVal? "shortcuts")
+    let c ← j.getObjVal? "call"
+    let optStr (k : String) : Except String (Option String) := do
+      match ← c.getObjVal? k with
+      | .null => pure none
+      | v => pure (some (← v.getStr?))
+    let di ← (match ← c.getObjVal? "dict_in" with
+      | .null => pure none
+      | v => do pure (some (← Ctx.ofJson v)) : Except String (Option Ctx))
+    let call : ApiCall := {
+      name := ← (← c.getObjVal? "name").getStr?, contextArgs := ← optStrsOf c "context_args",
+      parseInput := ← optBoolOf c "parse_input", dictIn := di, loader := ← optStr "loader",
+      groups := ← optStrsOf c "groups", success := ← optStr "success_group", failure := ← optStr "failure_group",
+      pyDir := ← optStr "py_dir" }
+    match applyShortcut scs call with
+    | none => throw "out of domain: shortcut value of a kind the model does not cover"
+    | some (.error e) => pure (Json.mkObj [("err", e.toJson)])
+    | some (.ok r) => pure (Json.mkObj [("ok", Json.mkObj [
+        ("name", Json.str r.name), ("context_args", optJ strsJ r.contextArgs), ("parse_input", Json.bool r.parseInput),
+        ("dict_in", optJ Ctx.toJson r.dictIn), ("loader", optJ Json.str r.loader), ("groups", optJ strsJ r.groups),
+        ("success_group", optJ Json.str r.success), ("failure_group", optJ Json.str r.failure),
+        ("py_dir", match r.pyDir with
+          | .caller d => Json.mkObj [("caller", optJ Json.str d)]
+          | .path raw => Json.mkObj [("path", Json.str raw)])])])
   | _ => .error s!"unknown op {op}"
 
 end Pypyr.OpCli
